@@ -12,6 +12,12 @@ references that call remote_<name> on the local object (optionally through a har
 an identity cipher that records its input stream, recording hashers, a constant clock, and a stand-in for the erasure
 coder (`CHKUploader.start_encrypted`, the same override point the repository's own test_helper.py uses) that records
 everything it obtains through the IEncryptedUploadable interface.
+
+Obligations (props/C44.py): resume_fetch (fetcher + client reader from any amount already on disk), interrupted_state
+(what a lost connection leaves behind), helper_upload_caps / direct_upload_caps (one whole upload each way, caps against the
+same absolute expression), interrupt_resume (the history in one run, caps compared literally), checker_decision /
+helper_decision / present_flow (already in the grid?), client_cap_fields (what the client makes of the helper's results),
+two_clients / late_attach (message schedules with a second client and connection loss).
 """
 import os as _os
 from vlib import hlib
@@ -43,7 +49,13 @@ NOTES = [
     "upload.plaintext_hasher / plaintext_segment_hasher: recorders; plaintext is provenance ('pt', offset)",
     "CHKUploader.start_encrypted (zfec encoding + share pushing, C01/C06/C36) replaced by a recorder that reads size, parameters, storage index and the whole "
     "ciphertext through the IEncryptedUploadable interface in symbolic-length reads, then reports a fresh UEB-hash token",
-    "offloaded.uri / upload.uri: CHKFileVerifierURI replaced by a field recorder with the same constructor signature (cap string formatting/parsing is C15/C38)",
+    "offloaded.uri / upload.uri: CHKFileVerifierURI / CHKFileURI replaced by field recorders with the same constructor signatures (cap string formatting/parsing is C15/C38)",
+    "offloaded.ReadBucketProxy (share header parsing, C01/C02): stand-in whose get_uri_extension answers UEB bytes / LayoutInvalid / DeadReferenceError per server; "
+    "storage servers are in-memory fakes answering get_buckets with {shnum: bucket} (unsorted, several servers may hold the same share number), a lost connection or an error",
+    "Helper.chk_checker (documented override point) answers 'not in the grid' in the transfer obligations; the real CHKCheckerAndUEBFetcher runs in checker_decision, "
+    "helper_decision and present_flow",
+    "Uploader.upload is driven unbound on a fake self (parent with encoding parameters / storage broker / secret holder); the uploadable is a real FileHandle over a "
+    "provenance file with key, size and encoding parameters preset",
 ]
 
 # ---- module-level environment (process-local; per-call state is reset at the top of every harness function) ----
